@@ -69,6 +69,16 @@ def build_pair(cfg, spilog=True, horizon=20 * 1000 * MS):
     if cfg.get("tx_hist") == "rx0":
         # the transmitter was a receiver on pipe 0 before: its own reading address must not end up in TX_ADDR
         a.open_rx_pipe(0, bytes([0x0F, 0x1E, 0x2D, 0x3C, 0x4B][:cfg["aw"]]))
+    th = cfg.get("tx_hist") or ""
+    if th.startswith("ackpl:"):
+        # the transmitter was a receiver with ACK payloads loaded that nobody fetched: leaving RX mode discards them
+        # (documented: the TX FIFO is flushed when ACK payloads are enabled), they must not travel as ordinary payloads
+        a.open_rx_pipe(1, bytes([0x33, 0x44, 0x55, 0x66, 0x77][:cfg["aw"]]))
+        a.listen = True
+        for i in range(int(th.split(":")[1])):
+            a.load_ack(b"stale ack payload %d" % i, 1)
+        w.advance(300 * US)
+        a.listen = False
     a.open_tx_pipe(addr)
     if cfg.get("tx_hist") == "rx0":
         a.listen = True
